@@ -20,6 +20,7 @@ from .values import *  # noqa
 from . import values as _v
 
 FEAS_TIMEOUT_MS = int(os.environ.get('PYVC_FEAS_MS', '1500'))
+BRANCH_STATS = {} if os.environ.get('PYVC_BRANCH_STATS') else None     # debug: where paths fork (statement line -> forks)
 
 
 # ------------------------------------------------------------------------- control signals
@@ -121,7 +122,9 @@ class Contract:
     def __init__(self, name, fn, params, result=None, requires=None, ensures=None, raises=None,
                  modifies=None, loops=None, decreases=None, depth=None, assumed=False,
                  raises_post=None, pure=False, locals_types=None, cls=None, ghost_args=None,
-                 may_raise_any=False, notes='', allow_implicit=(), mutates=(), asserts_raise=False, invariants=None, rec_group=None):
+                 may_raise_any=False, notes='', allow_implicit=(), mutates=(), asserts_raise=False, invariants=None, rec_group=None, epilogue=None, nested=None):
+        self.nested = nested                # name of a function defined inside fn: the target is that inner function; its free variables are declared as parameters
+        self.epilogue = epilogue            # lambda I: ghost code run after a normal return, before the postconditions (e.g. firing registered callbacks)
         self.rec_group = rec_group          # mutually recursive functions sharing one `decreases` measure
         self.name, self.fn = name, getattr(fn, '__func__', fn)
         self.params, self.result = params, result
@@ -302,6 +305,9 @@ class Ctx:
         k = feas[0]
         for alt in feas[1:]:
             self.alternatives.append(self.taken + [alt])
+        if BRANCH_STATS is not None and len(feas) > 1:
+            w_ = getattr(self, 'where', None)
+            BRANCH_STATS[w_] = BRANCH_STATS.get(w_, 0) + len(feas) - 1
         self.taken.append(k)
         self.pos += 1
         self.assume(conds[k])
@@ -374,6 +380,11 @@ class Ctx:
         # only for terms that do not go through a store of this run (conservative test)
         s = t.sexpr()
         if 'store' in s or t.get_id() in self.wf_done:
+            return
+        # a value havocked by a callee's / loop's modifies clause, a callee's result or a ghost may well be an object
+        # allocated during this run (negative): only terms built from the entry heap and the arguments are pre-state refs
+        from .verify import symbols_of
+        if any(not (n.startswith('H0:') or n.startswith('arg_')) for n in symbols_of(t)):
             return
         self.wf_done.add(t.get_id())
         self.keep.append(t)       # ids of freed ASTs are recycled by z3: keep cache keys alive
@@ -752,6 +763,9 @@ def explore(world, run_path, max_paths=4000):
         results.append(res)
         work.extend(ctx.alternatives)
         if len(results) > max_paths:
+            if BRANCH_STATS is not None:
+                for k_, v_ in sorted(BRANCH_STATS.items(), key=lambda kv: -kv[1])[:25]:
+                    print('FORKS', v_, k_)
             raise OutOfSubset('path explosion (> %d paths)' % max_paths)
     return results
 
